@@ -17,12 +17,13 @@ CHECKS = {
              "arches, layered-product releases), driven by the regenerated validator tables. Proved: C01_header_roundtrip, "
              "C01_compose_roundtrip (incl. the 'final only next to a label' normalisation), C01_release_roundtrip (release type "
              "case-folding is the identity on valid releases: every entry of the regenerated RELEASE_TYPES is lower case), "
-             "C01_base_product_roundtrip. The forest-level statement is decided "
+             "C01_base_product_roundtrip, C01_paths_roundtrip (the per-architecture path tables of a variant are read back exactly: the truthy "
+             "entries for the variant's architectures, in the writer's order). The forest-level statement is decided "
              "by the roundtrip_ci correspondence: every generated description is written, read and written again by the real "
              "library and by the model, the text is compared byte for byte and an implementation-side oracle compares every "
              "documented field, the parent/child structure and all paths with the documented normalisations.",
-        note="Partial: load_ci (dump_ci x) = Ok (norm x) over whole forests and path tables is not a Coq theorem; header, compose, "
-             "release and base-product sections are; C07_loaded_composeinfo_is_valid covers validity of every re-read variant.",
+        note="Partial: load_ci (dump_ci x) = Ok (norm x) over whole forests (the uid-keyed flattening) is not a Coq theorem; header, compose, "
+             "release, base-product sections and path tables are; C07_loaded_composeinfo_is_valid covers validity of every re-read variant.",
         design="DESIGN.md section 6 C01"),
     "C02": dict(
         text="Coq theorems C02_image_roundtrip / C02_image_roundtrip_fields (every image the library agrees to write is read back "
@@ -64,9 +65,12 @@ CHECKS = {
              "content per the format documentation (composeinfo 1.1/1.0/0.3/0.2/0.1, images 1.0/1.1, rpms 0.2/0.3, treeinfo "
              "1.1/1.0, pre-productmd [general]-only trees) and every fixture shipped under tests/ are loaded, written, re-loaded and "
              "written again by the real library: current-version header with the proper type, byte-identical second write, and for "
-             "composeinfo equality with the documented mapping and with the model reader.",
-        note="Partial: the pre-productmd (0.0) and 0.3 treeinfo readers (RHEL/Fedora heuristics) are not modelled; they are covered by "
-             "the implementation-side oracle only. Known finding K3 (opensuse fixture).",
+             "composeinfo equality with the documented mapping and with the model reader; older images/rpms documents also go through the "
+             "model readers with every attribute compared (the suites of C10, whose re-filing theorems cover these converters); the "
+             "family/version heuristics of the pre-productmd release reader are a reference model (Model/TreeInfo00.v, using the "
+             "regenerated patterns) corresponded on a pool of family names and version strings.",
+        note="Partial: of the pre-productmd (0.0) and 0.3 treeinfo readers only the release heuristics are modelled; the other "
+             "sections are covered by the implementation-side oracle. Known finding K3 (opensuse fixture).",
         design="DESIGN.md section 6 C05"),
     "C06": dict(
         text="Validation is modelled as an interpreter (Base/Obj.v) over validator tables REGENERATED from the source on every run: "
@@ -116,7 +120,8 @@ CHECKS = {
              "documented pre-1.1 exemption), C09_add_refusal_class (ValueError), C09_identify_spec (identity = the seven "
              "documented attributes, against the regenerated UNIQUE_IMAGE_ATTRIBUTES), C09_identify_ser (object identity = "
              "identity of the serialised dict, using the regenerated _validate_merges_variants). Tie: op-sequence differential "
-             "runs over small identity domains, header versions below/at/above 1.1 and fresh manifests.",
+             "runs over small identity domains (incl. blank subvariants and images without checksums yet), header versions below/at/above "
+             "1.1 and fresh manifests; manifests loaded from 1.0/1.1/1.2 documents then asked to add a clashing image.",
         note="Python == on values modelled structurally (bool as int, dicts as mappings). Loaded-document collisions are "
              "covered by the load correspondence (C07/C02 suites) since every loaded image goes through the same add.",
         design="DESIGN.md section 6 C09"),
